@@ -41,7 +41,7 @@ CFG = {
                 "axioms propext/Classical.choice/Quot.sound). The statement was FALSE of the code as found (kernel-checked witness C09_effect_double_run_witness, replayed on "
                 "the real Effect); the defect was REPAIRED by /repo commit 4084efd and the theorem is about the repaired scheduler; the witness stays as a regression theorem "
                 "about the pre-repair model (runOld). The model is tied to reactive_graph by differential "
-                "correspondence of per-op run counts on generated programs, histories and polling orders; every real invocation is checked against the justification oracle.",
+                "correspondence of per-op run counts on generated programs, histories and polling orders; every real invocation is checked against the justification oracle. Also proved: C09_memo_at_most_once and C09_effect_at_most_once_per_change (log level: between two runs of the same memo or effect, the earlier run made a tracked read of some x and a set/changed event of x lies between that read and the later run). Covered by the correspondence in addition: every accessor and constructor family, custom comparators (argument contract), watch/watch_sync handlers whose reads must not be tracked, Selector, ImmediateEffect (glitch-free shape).",
         "design_ref": "DESIGN.md §7 C09",
         "note": "hand-written model validated by correspondence; full theorem proved",
         "technique": "Lean 4 proof (invariant + induction over histories and schedules) + regression witness + differential correspondence",
